@@ -17,7 +17,13 @@ emits should be (provably) the same function.  `normalised(fn, has_rule)` return
   * loop unrolling       `for v in (A, B, …): body` over a literal tuple / list of names or constants (no `break`,
                          `continue`, `else`) is the body once per element, `v` replaced by the element;
   * `x in (a, b)`        a tuple literal on the right of `in` / `not in` is the list literal;
-  * keyword arguments    of every call sorted by name.
+  * keyword arguments    of every call sorted by name;
+  * lookup tables        `x = {k: v, …}.get(e)` / `{…}[e]` with literal keys is the if-chain it replaces (continuation
+                         copied into every arm, a literal value propagated and folded: `2 + 1`, `2 is None`, dead arms);
+  * expression helpers   a helper whose body is `return <expr>` is that expression wherever it is called; a helper that
+                         returns nothing, called as a statement, is its body;
+  * local temporaries    (only on request, `inline_temps=True`: the translators retry with it when the plain form has
+                         no rule) a temporary bound once to a call-free projection is its definition.
 
 Early `return` / guard clauses, `elif` versus `if` after `raise`, merged conditions need no normalisation: the
 translators copy the continuation into both arms of an `if` and stop at `return` / `raise`.
@@ -46,7 +52,7 @@ class _Subst(ast.NodeTransformer):
         self.env = env
 
     def visit_Name(self, node):
-        if node.id in self.env:
+        if node.id in self.env and isinstance(node.ctx, ast.Load):
             return copy.deepcopy(self.env[node.id])
         return node
 
@@ -139,6 +145,99 @@ class _Cosmetic(ast.NodeTransformer):
         return node
 
 
+class _Fold(ast.NodeTransformer):
+    """constant folding: integer arithmetic on literals, `<literal> is None`, `not <literal>`"""
+
+    def visit_BinOp(self, node):
+        self.generic_visit(node)
+        l, r = node.left, node.right
+        if (isinstance(l, ast.Constant) and isinstance(r, ast.Constant) and type(l.value) is int and type(r.value) is int):
+            if isinstance(node.op, ast.Add):
+                return ast.Constant(value=l.value + r.value)
+            if isinstance(node.op, ast.Sub):
+                return ast.Constant(value=l.value - r.value)
+            if isinstance(node.op, ast.Mult):
+                return ast.Constant(value=l.value * r.value)
+        return node
+
+    def visit_Compare(self, node):
+        self.generic_visit(node)
+        if (len(node.ops) == 1 and isinstance(node.ops[0], (ast.Is, ast.IsNot)) and isinstance(node.left, ast.Constant)
+                and isinstance(node.comparators[0], ast.Constant) and node.comparators[0].value is None):
+            v = node.left.value is None
+            return ast.Constant(value=v if isinstance(node.ops[0], ast.Is) else not v)
+        return node
+
+
+def _fold_ifs(stmts):
+    """`if True:` / `if False:` with a literal test is its live arm"""
+    out = []
+    for st in stmts:
+        if isinstance(st, ast.If):
+            body, orelse = _fold_ifs(st.body), _fold_ifs(st.orelse)
+            if isinstance(st.test, ast.Constant) and isinstance(st.test.value, bool):
+                out.extend(body if st.test.value else orelse)
+                continue
+            st = ast.If(test=st.test, body=body or [ast.Pass()], orelse=orelse)
+        out.append(st)
+        if isinstance(st, (ast.Return, ast.Raise)):
+            break                       # what follows is dead
+    return out
+
+
+def _no_calls(e):
+    return not any(isinstance(n, (ast.Call, ast.Await, ast.Yield, ast.YieldFrom, ast.NamedExpr)) for n in ast.walk(e))
+
+
+def _table_lookup(st):
+    """`x = {k: v, …}.get(e[, default])` / `x = {k: v, …}[e]` with literal keys and call-free `e` ->
+    (x, e, [(k, v)], default expression or None for KeyError), else None"""
+    if not (isinstance(st, ast.Assign) and len(st.targets) == 1 and isinstance(st.targets[0], ast.Name)):
+        return None
+    v = st.value
+    if (isinstance(v, ast.Call) and isinstance(v.func, ast.Attribute) and v.func.attr == "get"
+            and isinstance(v.func.value, ast.Dict) and not v.keywords and len(v.args) in (1, 2)):
+        d, e = v.func.value, v.args[0]
+        default = v.args[1] if len(v.args) == 2 else ast.Constant(value=None)
+    elif isinstance(v, ast.Subscript) and isinstance(v.value, ast.Dict):
+        d, e, default = v.value, v.slice, None
+    else:
+        return None
+    if not d.keys or not all(isinstance(k, ast.Constant) for k in d.keys) or not _no_calls(e) \
+            or not all(_no_calls(x) for x in d.values) or (default is not None and not _no_calls(default)):
+        return None
+    return st.targets[0].id, e, list(zip(d.keys, d.values)), default
+
+
+def _rebinds(stmts, name):
+    return any(isinstance(n, ast.Name) and n.id == name and isinstance(n.ctx, ast.Store) for b in stmts for n in ast.walk(b))
+
+
+def _expand_lookup(st, rest):
+    """the lookup table as the if-chain it replaces, the continuation copied into every arm; where the selected value
+    is a literal (and the variable is not rebound) it is propagated into the arm and folded"""
+    t = _table_lookup(st)
+    if t is None:
+        return None
+    x, e, pairs, default = t
+
+    def arm(value):
+        cont = [copy.deepcopy(b) for b in rest]
+        head = [ast.Assign(targets=[ast.Name(id=x, ctx=ast.Store())], value=copy.deepcopy(value))]
+        if isinstance(value, ast.Constant) and not _rebinds(cont, x):
+            cont = [_Subst({x: value}).visit(b) for b in cont]
+            cont = [_Fold().visit(b) for b in cont]
+            head = []
+        return _fold_ifs(head + cont) or [ast.Pass()]
+    last = arm(default) if default is not None else [ast.Raise(exc=ast.Call(func=ast.Name(id="KeyError", ctx=ast.Load()),
+                                                                            args=[], keywords=[]), cause=None)]
+    chain = last
+    for k, v in reversed(pairs):
+        chain = [ast.If(test=ast.Compare(left=copy.deepcopy(e), ops=[ast.Eq()], comparators=[copy.deepcopy(k)]),
+                        body=arm(v), orelse=chain)]
+    return chain
+
+
 def _helper(name, globals_):
     f = globals_.get(name)
     if not isinstance(f, types.FunctionType):
@@ -188,6 +287,59 @@ def _inline_body(call, globals_, has_rule, depth):
     return _tailify(body)
 
 
+def _inline_procedure(call, globals_, has_rule, depth):
+    """a bare call `h(a, b)` of a helper whose body never returns a value: the body itself, parameters replaced"""
+    if not isinstance(call.func, ast.Name) or call.keywords:
+        return None
+    h = _helper(call.func.id, globals_)
+    if h is None:
+        return None
+    node, hglobals = h
+    params = [x.arg for x in node.args.args]
+    if len(params) != len(call.args) or not all(_simple(a) for a in call.args):
+        return None
+    body = _strip_doc(node.body)
+    if any(isinstance(n, (ast.Return, ast.Yield, ast.YieldFrom)) for b in body for n in ast.walk(b)):
+        return None
+    stored = {n.id for b in body for n in ast.walk(b) if isinstance(n, ast.Name) and isinstance(n.ctx, ast.Store)}
+    if stored & set(params):
+        return None
+    _counter[0] += 1
+    env = dict(zip(params, call.args))
+    rename = {n: "%s_h%d" % (n, _counter[0]) for n in stored}
+
+    class Inl(ast.NodeTransformer):
+        def visit_Name(self, node):
+            if node.id in rename:
+                return ast.Name(id=rename[node.id], ctx=node.ctx)
+            if node.id in env:
+                return copy.deepcopy(env[node.id])
+            return node
+    return _norm_stmts([Inl().visit(copy.deepcopy(b)) for b in body], hglobals, has_rule, depth + 1)
+
+
+class _ExprInline(ast.NodeTransformer):
+    """a helper whose whole body is `return <expression>` is that expression, wherever it is called (tests of `if`,
+    operands of `and` / `or` included: substitution in place keeps the evaluation order)"""
+
+    def __init__(self, globals_, has_rule, depth=0):
+        self.g, self.has_rule, self.depth = globals_, has_rule, depth
+
+    def visit_Call(self, node):
+        self.generic_visit(node)
+        if (self.depth < MAX_DEPTH and isinstance(node.func, ast.Name) and not node.keywords and not self.has_rule(node)):
+            h = _helper(node.func.id, self.g)
+            if h is not None:
+                fnode, hg = h
+                body = _strip_doc(fnode.body)
+                params = [x.arg for x in fnode.args.args]
+                if (len(body) == 1 and isinstance(body[0], ast.Return) and body[0].value is not None
+                        and len(params) == len(node.args) and all(_simple(a) for a in node.args)):
+                    e = _Subst(dict(zip(params, node.args))).visit(copy.deepcopy(body[0].value))
+                    return _ExprInline(hg, self.has_rule, self.depth + 1).visit(e)
+        return node
+
+
 def _find_call(expr, globals_, has_rule):
     """the first call of an inlinable helper inside the expression (outermost first), or None"""
     if expr is None:
@@ -216,8 +368,18 @@ def _with_call_replaced(st, call, e):
 
 def _norm_stmts(stmts, globals_, has_rule, depth=0):
     stmts = _unroll(list(stmts))
+    stmts = [_ExprInline(globals_, has_rule, depth).visit(st) for st in stmts]
     out = []
-    for st in stmts:
+    for k, st in enumerate(stmts):
+        chain = _expand_lookup(st, stmts[k + 1:])
+        if chain is not None:
+            out.extend(_norm_stmts(chain, globals_, has_rule, depth))
+            return out
+        if isinstance(st, ast.Expr) and isinstance(st.value, ast.Call) and not has_rule(st.value) and depth < MAX_DEPTH:
+            proc = _inline_procedure(st.value, globals_, has_rule, depth)
+            if proc is not None:
+                out.extend(proc)
+                continue
         if isinstance(st, ast.If):
             st = ast.If(test=st.test, body=_norm_stmts(st.body, globals_, has_rule, depth),
                         orelse=_norm_stmts(st.orelse, globals_, has_rule, depth))
@@ -246,7 +408,46 @@ def _norm_stmts(stmts, globals_, has_rule, depth=0):
     return out
 
 
-def normalised(fn, has_rule=lambda call: False):
+def _touches(stmts, names):
+    """may the statements rebind or mutate one of the names?  (conservative: any store to / through the name, any
+    augmented assignment, any bare call statement that mentions it, any `del`)"""
+    for b in stmts:
+        for n in ast.walk(b):
+            if isinstance(n, ast.Name) and n.id in names and isinstance(n.ctx, (ast.Store, ast.Del)):
+                return True
+            if isinstance(n, (ast.Subscript, ast.Attribute)) and isinstance(n.ctx, (ast.Store, ast.Del)):
+                base = n
+                while isinstance(base, (ast.Subscript, ast.Attribute)):
+                    base = base.value
+                if isinstance(base, ast.Name) and base.id in names:
+                    return True
+            if isinstance(n, ast.Expr) and isinstance(n.value, ast.Call) and \
+                    any(isinstance(m, ast.Name) and m.id in names for m in ast.walk(n.value)):
+                return True
+    return False
+
+
+def _inline_temps(stmts):
+    """a local temporary bound ONCE to a call-free projection (`first = xs[0]`, `n = a.shape[0]`) whose operands are
+    neither rebound nor mutated afterwards is its definition, at every later use"""
+    out = []
+    stmts = list(stmts)
+    for k, st in enumerate(stmts):
+        if isinstance(st, ast.If):
+            st = ast.If(test=st.test, body=_inline_temps(st.body) or [ast.Pass()], orelse=_inline_temps(st.orelse))
+        rest = stmts[k + 1:]
+        if (isinstance(st, ast.Assign) and len(st.targets) == 1 and isinstance(st.targets[0], ast.Name)
+                and isinstance(st.value, (ast.Subscript, ast.Attribute)) and _no_calls(st.value)):
+            x = st.targets[0].id
+            free = {n.id for n in ast.walk(st.value) if isinstance(n, ast.Name)}
+            if x not in free and not _touches(rest, free | {x}):
+                new_rest = [_Subst({x: st.value}).visit(copy.deepcopy(b)) for b in rest]
+                return out + _inline_temps(new_rest)
+        out.append(st)
+    return out
+
+
+def normalised(fn, has_rule=lambda call: False, inline_temps=False):
     """`ast.FunctionDef` of the live function `fn`, normalised (see the module docstring).  `has_rule(call_node)` says
     whether the vocabulary of the caller has a word for that call (then it is not inlined)."""
     f = getattr(fn, "__func__", fn)
@@ -255,6 +456,8 @@ def normalised(fn, has_rule=lambda call: False):
     if not isinstance(node, ast.FunctionDef):
         return node
     node.body = _norm_stmts(_strip_doc(node.body), getattr(f, "__globals__", {}), has_rule, 0)
+    if inline_temps:
+        node.body = _inline_temps(node.body) or [ast.Pass()]
     node = _Cosmetic().visit(node)
     ast.fix_missing_locations(node)
     return node
